@@ -102,6 +102,27 @@ theorem region_deterministic (r : Region) (hr : r.RaceFree) (p : ParLoop V E) (s
       ((p.runSched m0 σ).st.log.map Prod.snd).Perm ((p.sequential m0).log.map Prod.snd) :=
   race_free_deterministic_prog p m0 (raceFree_of_conforms r hr p s hc)
 
+/-- non-vacuity of `region_deterministic`: a row-owner table (the shape of the triangulation / geodesic regions) and a
+    concrete three-iteration loop that conforms to it -/
+def demoRegion : Region where
+  name := "demo"; file := ""; func := ""; config := ""; loopVar := "i"; loopLo := "0"; loopHi := "n"
+  syms := ["n"]; lo := fun _ => 0; hi := fun s => s 0
+  arrays := ["M"]; privateVars := []; sharedReadOnly := []; reentrantCalls := []; clauses := []
+  accesses := [{ arr := 0, arrName := "M", kind := .write, critical := false, inLoop := true, vars := [],
+                 guard := fun _ _ _ => true, row := fun _ _ i => some i, col := fun _ _ _ => none, src := "M.row(i) = …" }]
+
+example : demoRegion.RaceFree ∧
+    (⟨3, fun k => .write ⟨0, k.val, 1⟩ (k.val + 7) .done⟩ : ParLoop Nat Unit).Conforms demoRegion (fun _ => 3) := by
+  refine ⟨by race_free demoRegion, ⟨by decide, ?_, ?_⟩⟩
+  · intro k l hw
+    cases hw with
+    | here =>
+      exact ⟨_, List.mem_cons_self .., rfl, rfl, rfl, fun _ => 0, rfl, by simp [demoRegion], by simp⟩
+    | write_k h => cases h
+  · intro k l hr
+    cases hr with
+    | write_k h => cases h
+
 /-! ### per region, over the generated table -/
 
 /-- the table covers exactly these regions (a new `#pragma omp parallel` in the source needs a theorem here) -/
